@@ -2,15 +2,18 @@
 //@serves C05 C09
 //@backend verus
 // bbiwrite::calculate_offsets, write_tree, write_rtreeindex: the writer of the on-disk R-tree
-// (cirTree) index, level-order layout.  C05/C09: the bytes appended are the published cirTree
+// (cirTree) index, level-order layout.  C05/C09: the bytes appended are the published 48-byte cirTree
 // header followed by the nodes of level `levels`, ..., level 0, every node in the published node
 // layout, and EVERY CHILD POINTER EQUALS THE ABSOLUTE FILE POSITION OF THE CHILD'S NODE HEADER --
-// for every number of levels, every fan-out, partly filled last nodes on every level.
-// The code computes pointers as `childnode_offset + idx * full_node_size`; the format spec below
+// for every number of levels, every fan-out <= 65535, partly filled last nodes on every level.
+// The code computes pointers as `childnode_offset + idx * full_node_size`; the format spec (spec.rs)
 // computes them from the REAL sizes of the nodes that precede the child.  They agree because of
 // the fullness clause of `wf` (every node that is not the last of its level has exactly
-// block_size children) -- which is an explicit precondition here (established by get_rtreeindex,
-// which is NOT verified by this unit).
+// block_size children) -- an explicit precondition here; it is what get_rtreeindex's chunking
+// produces, but get_rtreeindex is NOT verified by this unit.
+// Files: spec.rs (sizes, wf, format spec), lemmas.rs (fullness => sizes, lengths), stored.rs (the image
+// read back by position), decode.rs (the image read back by an independent little-endian reader that
+// follows the stored pointers) -- the last is the top-level statement of write_rtreeindex.
 use vstd::prelude::*;
 use vstd::std_specs::convert::FromSpec;
 verus! {
@@ -69,7 +72,7 @@ fn pos_le_exec(a: (u32, u32), b: (u32, u32)) -> (r: bool)
 }
 fn max_end_sections(v: &Vec<Section>) -> (r: (u32, u32))
     ensures
-        [[L: is_lexicographic_max_or_zero_if_empty]]
+        [[L: helper/max_end_sections_is_lexicographic_max_or_zero_if_empty]]
         r == max_end_secs(v@, v@.len() as int),
 {
     let mut m: (u32, u32) = (0, 0);
@@ -87,7 +90,7 @@ fn max_end_sections(v: &Vec<Section>) -> (r: (u32, u32))
 fn max_end_children(v: &Vec<RTreeNode>) -> (r: (u32, u32))
     requires v@.len() > 0,
     ensures
-        [[L: is_lexicographic_max]]
+        [[L: helper/max_end_children_is_lexicographic_max]]
         r == max_end_nodes(v@, v@.len() as int),
 {
     let mut m: (u32, u32) = (0, 0);
@@ -154,7 +157,7 @@ fn max_end_children(v: &Vec<RTreeNode>) -> (r: (u32, u32))
                     assert(old(index_offsets)@[lv - 1] + hdr_part(lv - 1, lv, s.len() as int) + sz_kids(s, lv - 1, lv - 1 + 1, s.len() as int) <= u64::MAX);
                     assert(index_offsets@[lv - 1] == old(index_offsets)@[lv - 1] + hdr_part(lv - 1, lv, i__1 as int) + sz_kids(s, lv - 1, lv - 1 + 1, i__1 as int));
                 }
-//@at /calculate_offsets\(index_offsets, &child\.children, level - 1\);/ before
+//@at /calculate_offsets\(index_offsets,/ before
                 let ghost io2 = index_offsets@;
                 proof {
                     assert(*child == s[i__1 as int]);
@@ -171,7 +174,7 @@ fn max_end_children(v: &Vec<RTreeNode>) -> (r: (u32, u32))
                         lemma_szk_mono(s, lv - 1, k + 1, i__1 + 1, s.len() as int);
                     }
                 }
-//@at /calculate_offsets\(index_offsets, &child\.children, level - 1\);/ after
+//@at /calculate_offsets\(index_offsets,/ after
                 proof {
                     [[L: loop/step_adds_item_size_and_subtree_sizes]]
                     assert forall|k: int| 0 <= k < lv implies (#[trigger] index_offsets@[k]) == old(index_offsets)@[k] + hdr_part(k, lv, i__1 + 1) + sz_kids(s, lv - 1, k + 1, i__1 + 1) by {
@@ -273,14 +276,14 @@ fn max_end_children(v: &Vec<RTreeNode>) -> (r: (u32, u32))
                         assert(file@ == fmt_level(f0, s[i__1 as int].children, cur - 1, dest, kp0 + sz_kids(s, cur - 1, dest - 1, i__1 as int))); [[L: loop1/child_subtree_written_with_its_true_children_position]]
                         assert(file@ == fmt_kids(old(file)@, s, cur - 1, dest, kp0, i__1 + 1));
                     }
-//@at /return Ok\(next_offset_offset\);/ before
+//@at /return Ok\(/ before
         proof {
             lemma_post(old(file)@, *nodes, cur, dest, b, kp0);
         }
 //@at /RTreeChildren::DataSections\(sections\) => \{/ after
             assert(sections.len() <= 65535); [[L: leaf_count_fits_u16]]
             let ghost h0 = put_hdr(old(file)@, true, sections@.len() as int);
-//@at /file\.put_u16\(sections\.len\(\) as u16\)\?;/ after
+//@at /file\.put_u16\(/ nth=1 after
             assert(file@ == h0); [[L: leaf_node_header_is_isleaf1_reserved0_count]]
 //@loop 2
                 invariant
@@ -288,7 +291,7 @@ fn max_end_children(v: &Vec<RTreeNode>) -> (r: (u32, u32))
                     file@ == put_leaf_items(h0, sections@, i__2 as int),
 //@at /let section = &sections\[i__2\];/ after
                 let ghost b0 = file@;
-//@at /file\.put_u64\(section\.size\)\?;/ after
+//@at /file\.put_u64\(section\.\w+\)/ nth=2 after
                 proof {
                     assert(file@ == put_leaf_item(b0, *section)); [[L: loop2/leaf_item_layout]]
                 }
@@ -304,7 +307,7 @@ fn max_end_children(v: &Vec<RTreeNode>) -> (r: (u32, u32))
                 assert(kids_wf(s, cur - 1, b, true));
                 lemma_mul_mono(0, s.len() as int, full(cur - 1, b));
             }
-//@at /file\.put_u16\(children\.len\(\) as u16\)\?;/ after
+//@at /file\.put_u16\(/ nth=2 after
             assert(file@ == h0); [[L: nonleaf_node_header_is_isleaf0_reserved0_count]]
 //@loop 3
                 invariant
@@ -322,7 +325,7 @@ fn max_end_children(v: &Vec<RTreeNode>) -> (r: (u32, u32))
                 proof {
                     lemma_pointer(s, cur - 1, b, true, idx as int);
                 }
-//@at /file\.put_u64\(child_offset\)\?;/ after
+//@at /file\.put_u64\(child_offset/ after
                 proof {
                     assert(child_offset == childnode_offset + sz_kids(s, cur - 1, cur - 1, idx as int)); [[L: loop3/pointer_is_true_position_of_child]]
                     assert(file@ == put_nl_item(b0, *child, childnode_offset + sz_kids(s, cur - 1, cur - 1, idx as int))); [[L: loop3/nonleaf_item_layout]]
@@ -367,16 +370,16 @@ fn max_end_children(v: &Vec<RTreeNode>) -> (r: (u32, u32))
     let ghost b = options.block_size as int;
     let ghost lv = levels as int;
     let ghost p0 = old(file)@.len() as int + 48;
-//@at /calculate_offsets\(&mut index_offsets, &nodes, levels\);/ before
+//@at /calculate_offsets\(&mut index_offsets,/ before
     proof {
         lemma_wf_depth(nodes, lv, b, true);
         assert forall|k: int| 0 <= k < lv implies (#[trigger] index_offsets@[k]) + sz(nodes, lv, k + 1) <= u64::MAX by {
             lemma_above_bounds(nodes, lv, k + 1);
         }
     }
-//@at /file\.put_u32\(CIR_TREE_MAGIC\)\?;/ before
+//@at /let end_of_data = / after
     assert(CIR_TREE_MAGIC == 0x2468ACE0u32); [[L: magic_is_the_published_constant]]
-//@at /let mut next_offset = file\.pos\(\)\?;/ before
+//@at /let mut next_offset = / before
     let ghost hdr = file@;
     proof {
         assert(hdr == fmt_cir_header(old(file)@, options.block_size, section_count, root_start(nodes), root_end(nodes), old(file)@.len() as u64, options.items_per_slot)); [[L: header_layout_and_bounds]]
@@ -404,7 +407,7 @@ fn max_end_children(v: &Vec<RTreeNode>) -> (r: (u32, u32))
             lemma_rv(nodes, lv, level as int, b, true);
             if level > 0 { lemma_above_bounds(nodes, lv, level - 1); }
         }
-//@at /write_tree\(file, &nodes, levels, level, next_offset, options\)\?;/ after
+//@at /write_tree\(file, &nodes,/ after
         proof {
             assert(file@ == fmt_down(hdr, nodes, lv, level as int, p0)); [[L: loop/level_written_with_position_of_next_level_down]]
         }
